@@ -72,16 +72,20 @@ impl BufferParser for Parser {
                     }
                     3 => {
                         caret.pos.y = max(0, caret.pos.y - 1);
+                        buf.terminal_state.limit_caret_pos(buf, caret);
                     }
                     4 => {
                         caret.pos.y += 1;
+                        buf.terminal_state.limit_caret_pos(buf, caret);
                     }
 
                     5 => {
                         caret.pos.x = max(0, caret.pos.x - 1);
+                        buf.terminal_state.limit_caret_pos(buf, caret);
                     }
                     6 => {
                         caret.pos.x = min(79, caret.pos.x + 1);
+                        buf.terminal_state.limit_caret_pos(buf, caret);
                     }
                     7 => {
                         return Err(ParserError::Description("todo: avt cleareol").into());
@@ -132,8 +136,10 @@ impl BufferParser for Parser {
                     Ok(CallbackAction::NoUpdate)
                 }
                 2 => {
-                    caret.pos.x = self.avt_repeat_char as i32;
-                    caret.pos.y = ch as i32;
+                    // ^V^H <row> <col>, both 1 based (FSC-0025)
+                    caret.pos.y = buf.get_first_visible_line() + max(0, self.avt_repeat_char as i32 - 1);
+                    caret.pos.x = max(0, ch as i32 - 1);
+                    buf.terminal_state.limit_caret_pos(buf, caret);
 
                     self.avt_state = AvtReadState::Chars;
                     Ok(CallbackAction::NoUpdate)
